@@ -136,6 +136,8 @@ static const char *sarg(int argc, char **argv, const char *key, const char *def)
 	return def;
 }
 
+uint8_t *mt_drv_keep[2];     // the driver's own buffers stay reachable: not reported by LeakSanitizer
+
 int main(int argc, char **argv)
 {
 	if (argc < 5)
@@ -157,11 +159,11 @@ int main(int argc, char **argv)
 	FILE *fi = fopen(argv[2], "rb");
 	if (!fi || !events) return 2;
 	fseek(fi, 0, SEEK_END); long flen = ftell(fi); fseek(fi, 0, SEEK_SET);
-	uint8_t *in = malloc((size_t)flen + 1);
+	uint8_t *in = mt_drv_keep[0] = malloc((size_t)flen + 1);
 	if (fread(in, 1, (size_t)flen, fi) != (size_t)flen) return 2;
 	fclose(fi);
 	size_t outcap = (size_t)arg(argc, argv, "outcap", 1 << 26);
-	uint8_t *out = malloc(outcap);
+	uint8_t *out = mt_drv_keep[1] = malloc(outcap);
 
 	signal(SIGALRM, on_alarm);
 	alarm((unsigned)watchdog);
@@ -224,7 +226,10 @@ int main(int argc, char **argv)
 			break;
 		if (!reinited && reinit_after >= 0 && calls >= reinit_after) {
 			// give the same lzma_stream to the constructor again without lzma_end() and start over
-			record("AppReinit", -1, 0, 0, 0, 0);
+			// reinit_blocksize=N: ask for another block_size this time (same thread count)
+			long nbs = arg(argc, argv, "reinit_blocksize", 0);
+			if (enc && nbs > 0) mt.block_size = (uint64_t)nbs;
+			record("AppReinit", -1, enc ? nbs : 0, 0, 0, 0);
 			opt_delta.dist = 1;
 			r = enc ? lzma_stream_encoder_mt(&strm, &mt) : lzma_stream_decoder_mt(&strm, &mt);
 			record("Reinited", -1, r, 0, 0, 0);
